@@ -20,6 +20,12 @@
 (*     append-only, ...) while appending still works.  roll_if_needed()?   *)
 (*     then returns the error BEFORE anything is appended: the write is    *)
 (*     refused and nothing grows (LogWriteRollFails).                      *)
+(*     Kill dimension (RollKills): a run may be killed INSIDE archive_file *)
+(*     after the rename of the full current file and before the removal of *)
+(*     the old archives is complete; the next run finds what is left       *)
+(*     (LogKilledInRoll): max archived files and no current one, so one    *)
+(*     file too many per such kill -- until the first roll that completes, *)
+(*     whose removal loop deletes ALL the excess.                          *)
 (*  EventDir    proxy_agent_shared/src/telemetry/event_logger.rs start()   *)
 (*     timer tick: queue empty -> nothing; else the queue is drained, the  *)
 (*     directory is listed and, when files >= cap, the drained events are  *)
@@ -51,6 +57,7 @@ CONSTANTS Machine,      \* "log" | "event" | "dumps" | "all"
           PreCur,       \* ... and no current file or one of one of these sizes
           CrashPoints,  \* BOOLEAN: the process may also be killed between the system calls of one write
           RollFaults,   \* BOOLEAN: the environment may make the archive rename fail for a while
+          RollKills,    \* BOOLEAN: a run may be killed between the rename and the last removal of a roll, then restarted
           \* --- event directory
           Cap,          \* max_event_file_count
           MaxPush,      \* events pushed at once 1..MaxPush
@@ -68,7 +75,7 @@ VARIABLES
   lw,        \* ghost: size of the last write that went into the current file
   rolled,    \* ghost: a roll happened since the directory was found
   logLegal,  \* ghost: the directory found at start could have been left by this logger (room for the current file)
-  debt,      \* ghost (CrashPoints only): kills in the middle of archive_file since the last completed roll
+  debt,      \* ghost (CrashPoints / RollKills): kills in the middle of archive_file since the last completed roll
   rollFails, \* environment: fs::rename of the current file fails at present (appending still works)
   \* event directory
   evFiles,   \* number of files in the event directory
@@ -183,6 +190,19 @@ LogFaultOff ==
   /\ rollFails' = FALSE
   /\ UNCHANGED <<arch, cur, lw, rolled, logLegal, debt>>
 
+\* The run is killed inside archive_file during a write: after fs::rename and j of the removals that were due (not
+\* all of them), before the current file is re-created; the process is started again and finds the directory so.
+\* A restart: the event queue is lost and the event logger task runs again.
+LogKilledInRoll(j) ==
+  /\ On("log") /\ RollKills /\ ShouldRoll /\ ~rollFails
+  /\ j \in 0..(Excess(Len(Renamed), MaxCount) - 1)
+  /\ arch' = Drop(Renamed, j) /\ cur' = -1 /\ lw' = 0
+  /\ rolled' = FALSE            \* the directory is found anew, no roll has completed since
+  /\ debt' = debt + 1
+  /\ UNCHANGED <<logLegal, rollFails>>
+  /\ evQueue' = 0 /\ evRun' = TRUE
+  /\ UNCHANGED <<evFiles, evLegal, dumpVars>>
+
 \* Crash points (only with CrashPoints): the process is killed between two system calls of one write.
 \* after open_file / after the re-creation that follows a roll, before the append
 LogKillBeforeAppend ==
@@ -205,7 +225,7 @@ LogNext == \/ \E n \in 1..MaxWrite : \/ LogWriteNoRoll(n)
                                      \/ LogWriteRollFails(n)
            \/ LogFaultOn \/ LogFaultOff
            \/ LogKillBeforeAppend
-           \/ \E j \in 0..(PreArch + 2) : LogKillInArchive(j)
+           \/ \E j \in 0..(PreArch + 2) : LogKillInArchive(j) \/ LogKilledInRoll(j)
 
 -----------------------------------------------------------------------------
 \* EventDir.
@@ -298,6 +318,10 @@ Next == LogNext \/ EvNext \/ DumpNext \/ Restart
 
 Spec == Init /\ [][Next]_vars
 
+\* the sizes of the archived files never influence a later step (only their number does): the configuration that
+\* explores kills inside rolls identifies states up to those sizes
+CountView == <<Len(arch), cur, lw, rolled, logLegal, debt, rollFails, evVars, dumpVars>>
+
 \* model bounds (state constraint)
 Bounded == nextId <= MaxIds + 1 /\ debt <= 2
 
@@ -309,12 +333,13 @@ TypeOK == /\ arch \in Seq(Nat) /\ cur \in Int /\ cur >= -1 /\ lw \in Nat
           /\ evFiles \in Nat /\ evQueue \in 0..QueueBound /\ evRun \in BOOLEAN
           /\ dumps \in Seq(Nat) /\ nextId \in Nat
 
-\* C19, rolling log, for directories an earlier run with the same settings can have left
-LogCountBound == (logLegal /\ ~CrashPoints) => P_LogCount(arch, cur, MaxCount)
-\* whatever was found: once a roll has happened the bound holds (the removal loop deletes ALL the excess)
+\* C19, rolling log, for directories an earlier run with the same settings can have left without being killed in a roll
+LogCountBound == (logLegal /\ ~CrashPoints /\ debt = 0) => P_LogCount(arch, cur, MaxCount)
+\* whatever was found (by the first run, or after a kill inside a roll): once a roll has COMPLETED the bound holds
+\* (the removal loop deletes ALL the excess) and keeps holding
 LogCountRecovered == (rolled /\ ~CrashPoints) => P_LogCount(arch, cur, MaxCount)
 \* without a roll nothing is ever added beyond the current file
-LogNoGrowthWithoutRoll == [][(Len(arch') > Len(arch)) => rolled']_vars
+LogNoGrowthWithoutRoll == [][(Len(arch') > Len(arch)) => (rolled' \/ debt' > debt)]_vars
 \* with crash points anywhere: one file too many per kill that hit the window between the rename and the removals
 \* (max archived files, then a fresh current one), until the next completed roll removes ALL the excess
 LogCountBoundCrash == logLegal => P_LogCount(arch, cur, MaxCount + debt)
